@@ -188,6 +188,7 @@ func propC06(w *World, r *Run) {
 	ruleStorageRefusal(w, r, "C06.d")
 	ruleReadVerbatim(w, r, "C06.e")
 	ruleComposedSQL(w, r, "C06.e")
+	ruleDBFileOnlyThroughSQL(w, r, "C06.f")
 }
 
 func init() {
@@ -311,6 +312,8 @@ func propC14(w *World, r *Run) {
 	ruleCloseIsRollback(w, r, "C14.e")
 	ruleSumDBConstants(w, r) // tile-derived proofs: constants and coordinate plumbing (reported under C18.* rule ids)
 	ruleReadLimitsConstant(w, r, "C14.f")
+	ruleRekorProofRequest(w, r, "C14.g")
+	ruleFeedLogFailsOnlyOnConfig(w, r, "C14.h")
 }
 
 func init() {
@@ -343,6 +346,7 @@ func propC18(w *World, r *Run) {
 	ruleNoManualEncoding(w, r, "C18.e")
 	ruleReadLimitsConstant(w, r, "C18.f")
 	ruleFeederAs(w, r, "C18.g")
+	ruleFetchURLIsBasePlusPath(w, r, "C18.i")
 	ruleHonestStep(w, r, analyseUpdate(w, r), "C18.h", "0<stored<submitted") // a growth step between two non-zero sizes: what a feeder's proof is for
 }
 
